@@ -4,6 +4,8 @@ import (
 	"bytes"
 	"context"
 	"fmt"
+	"sort"
+	"strings"
 
 	"github.com/orbs-network/lean-helix-go/services/interfaces"
 	"github.com/orbs-network/lean-helix-go/spec/types/go/protocol"
@@ -17,6 +19,7 @@ type Violation struct {
 	Rule   string // stable rule id = fingerprint of the kind of failure
 	Detail string
 	Step   int
+	Taint  string // non-empty: a recorded known finding was triggered earlier at this height of this case (possible root cause)
 }
 
 func (v Violation) String() string { return fmt.Sprintf("%s/%s: %s", v.Prop, v.Rule, v.Detail) }
@@ -37,6 +40,7 @@ type nodeMon struct {
 	commits   map[hvh]map[string]bool   // authentic COMMIT senders (valid share)
 	votes     map[hv]map[string]*ref.Vote // authentic votes addressed to this node
 	validated map[string]bool           // hashes this node's ValidateBlockProposal approved
+	barePP    map[hvh]bool              // authentic standalone PREPREPARE of leader(v), v>0, delivered
 	// outputs
 	sentPP    map[hv]string
 	sentP     map[hv]string
@@ -52,7 +56,7 @@ type nodeMon struct {
 
 func newNodeMon() *nodeMon {
 	return &nodeMon{proposals: map[hvh]bool{}, validNV: map[hv]map[string]bool{}, prepares: map[hvh]map[string]bool{}, commits: map[hvh]map[string]bool{},
-		votes: map[hv]map[string]*ref.Vote{}, validated: map[string]bool{}, sentPP: map[hv]string{}, sentP: map[hv]string{}, sentC: map[hv]string{}, lastVC: map[uint64]int64{},
+		votes: map[hv]map[string]*ref.Vote{}, validated: map[string]bool{}, barePP: map[hvh]bool{}, sentPP: map[hv]string{}, sentP: map[hv]string{}, sentC: map[hv]string{}, lastVC: map[uint64]int64{},
 		storedVC: map[hv]map[string]*interfaces.ViewChangeMessage{}, lastCommitH: -1, lastRoundH: -1}
 }
 
@@ -71,10 +75,12 @@ type Monitors struct {
 	cur *deliveryCtx
 	// switches
 	JudgeC11 bool
+	// known findings triggered in this case (name -> true); later violations carry them as possible root cause
+	taint map[string]bool
 }
 
 func NewMonitors(w *World) *Monitors {
-	return &Monitors{w: w, nm: map[string]*nodeMon{}, Stats: map[string]int{}, decided: map[uint64]string{}, decidedBy: map[uint64]string{}, minted: map[string]bool{}, approved: map[string]bool{}, JudgeC11: true}
+	return &Monitors{w: w, nm: map[string]*nodeMon{}, Stats: map[string]int{}, decided: map[uint64]string{}, decidedBy: map[uint64]string{}, minted: map[string]bool{}, approved: map[string]bool{}, JudgeC11: true, taint: map[string]bool{}}
 }
 
 func (m *Monitors) node(id string) *nodeMon {
@@ -87,8 +93,22 @@ func (m *Monitors) node(id string) *nodeMon {
 }
 
 func (m *Monitors) violate(prop, rule, format string, a ...interface{}) {
-	m.Viol = append(m.Viol, Violation{Prop: prop, Rule: rule, Detail: fmt.Sprintf(format, a...), Step: len(m.w.Trace)})
+	v := Violation{Prop: prop, Rule: rule, Detail: fmt.Sprintf(format, a...), Step: len(m.w.Trace)}
+	if len(m.taint) > 0 {
+		v.Taint = m.taintNames()
+	}
+	m.Viol = append(m.Viol, v)
 	m.Stats["viol "+prop+"/"+rule]++
+}
+
+// taintNames lists the known findings already triggered in this case.
+func (m *Monitors) taintNames() string {
+	var l []string
+	for k := range m.taint {
+		l = append(l, k)
+	}
+	sort.Strings(l)
+	return strings.Join(l, "+")
 }
 
 func (m *Monitors) Has(prop string) bool {
@@ -177,6 +197,9 @@ func (m *Monitors) classify(n *Node, msg *ref.Msg, pre preState) string {
 		}
 		if authentic && msg.Sender.Id == leader {
 			nm.proposals[key] = true
+			if msg.V > 0 {
+				nm.barePP[key] = true
+			}
 		}
 	case ref.EnvP:
 		if msg.Sender.Id == leader {
@@ -232,6 +255,10 @@ func (m *Monitors) classify(n *Node, msg *ref.Msg, pre preState) string {
 		if msg.Sender.Id != leader {
 			set("new-view-not-from-leader")
 		}
+		if authentic && msg.EmbPP != nil && msg.EmbSig != nil && msg.EmbPP.Type == ref.PP && msg.EmbPP.Inst == uint64(spi.InstanceId) && msg.EmbPP.H == msg.H && msg.EmbPP.V == msg.V &&
+			msg.EmbSig.Id == leader && w.Keys.VerifyCM(leader, msg.H, msg.EmbPP.Raw, msg.EmbSig.Sig) {
+			nm.proposals[key] = true
+		}
 		if msg.Inst == uint64(spi.InstanceId) {
 			vd := ref.NewViewValid(w.Keys, c, uint64(spi.InstanceId), msg)
 			if vd.Valid {
@@ -240,7 +267,6 @@ func (m *Monitors) classify(n *Node, msg *ref.Msg, pre preState) string {
 					nm.validNV[k] = map[string]bool{}
 				}
 				nm.validNV[k][string(msg.Hash)] = vd.LockedHash == nil // fresh proposal: needs consumer validation
-				nm.proposals[key] = true
 			} else {
 				set("invalid-new-view:" + vd.Why)
 			}
@@ -284,7 +310,8 @@ func (m *Monitors) PreDelivery(n *Node, f *Flight) *deliveryCtx {
 // effect kinds that show the node was influenced
 func isEffect(e *spi.Event) bool {
 	switch e.Kind {
-	case spi.EvSend, spi.EvStorePP, spi.EvStoreP, spi.EvStoreC, spi.EvStoreVC, spi.EvCommit, spi.EvNewRound, spi.EvValidate, spi.EvRequestBlock, spi.EvRegister, spi.EvCommittee:
+	case spi.EvSend, spi.EvStorePP, spi.EvStoreP, spi.EvStoreC, spi.EvStoreVC, spi.EvCommit, spi.EvNewRound, spi.EvRequestBlock, spi.EvRegister, spi.EvCommittee:
+		// (a ValidateBlockProposal call is a query to the consumer, the way a proposal gets rejected: not an influence)
 		return true
 	}
 	return false
@@ -312,6 +339,10 @@ func (m *Monitors) PostDelivery(d *deliveryCtx, effects []spi.Event, panicked bo
 		for i := range effects {
 			e := &effects[i]
 			if e.Node == n.Id && isEffect(e) {
+				if strings.HasPrefix(d.mustIgn, "invalid-new-view") {
+					m.violate("C07", "influenced-by-invalid-new-view", "node %s (h=%d v=%d) was influenced (%s h=%d v=%d) by a NEW_VIEW that is not a valid certificate: %s", n.Id, d.pre.H, d.pre.V, e.Kind, e.H, e.V, d.mustIgn)
+					break
+				}
 				m.violate("C08", "effect-of-must-ignore:"+ruleKey(d.mustIgn)+":"+msg.Env.String(), "node %s (h=%d v=%d) was influenced (%s h=%d v=%d) by %s that must be ignored: %s", n.Id, d.pre.H, d.pre.V, e.Kind, e.H, e.V, Describe(f), d.mustIgn)
 				break
 			}
@@ -757,6 +788,12 @@ func (m *Monitors) onStore(n *Node, nm *nodeMon, e *spi.Event) {
 func (m *Monitors) needValidNV(n *Node, nm *nodeMon, h, v uint64, hash string, what string) {
 	set := nm.validNV[hv{h, v}]
 	needsVal, ok := set[hash]
+	if !ok && nm.barePP[hvh{h, v, hash}] {
+		// recorded known finding: a standalone PREPREPARE of the view's leader is accepted in a view above 0
+		m.taint["bare-preprepare"] = true
+		m.violate("C07", "adopted-bare-preprepare-in-view-above-0", "node %s %s of (h=%d v=%d hash=%x) on a standalone PREPREPARE of the view's leader, without any NEW_VIEW", n.Id, what, h, v, short([]byte(hash)))
+		return
+	}
 	if !ok {
 		m.violate("C07", "acted-in-view-without-valid-new-view", "node %s %s of (h=%d v=%d hash=%x) but no valid NEW_VIEW for it was ever delivered to it", n.Id, what, h, v, short([]byte(hash)))
 		return
